@@ -206,6 +206,10 @@ def run_r2(ctx, rule):
             not_ignored = any(fa[0] == "bool" and fa[2] is False and fa[1][0] == "f" and fa[1][2] == "ignore_header" for s0, fa in fs)
             nonzero = any(fa[0] == "cmp" and fa[1] == "Ne" and ("c", 0) in (fa[2], fa[3]) and any(x[0] == "f" and x[2] == hf for x in (fa[2], fa[3])) for s0, fa in fs)
             rule.check(not_ignored and nonzero, "%s::new/%s/installed-when-asked" % (m, name), "%s: %s is set only when the header is not ignored and %s != 0" % (m, name, hf), f.loc(bi))
+            # .. and whenever it is asked for: no other count of the header decides about it (a clause count of 0 means
+            # "unspecified", it does not switch the group or variable limit off)
+            others = sorted(set(x[2] for s0, fa in fs if fa[0] == "cmp" for x in (fa[2], fa[3]) if x[0] == "f" and x[2] in set(LIMIT_FIELDS.values()) and x[2] != hf))
+            rule.check(not others, "%s::new/%s/installed-whenever-asked" % (m, name), "%s: whether %s is installed does not depend on another header count%s" % (m, name, "" if not others else " -- but it is only installed under a test of %s" % others), f.loc(bi))
             e = sy.rvalue(f.blocks[bi]["stmts"][si]["rv"])
             if not name.endswith(("_is_hard", "_active")):
                 rule.check(mentions(e, lambda x: x[0] == "f" and x[2] == hf), "%s::new/%s/source" % (m, name), "%s: %s is taken from the header's %s (%s)" % (m, name, hf, sy.show(e)), f.loc(bi))
